@@ -8,7 +8,10 @@
 (b) dRTdAngles column k = dRdAngle_k * T  (inherits (a)).
 (c) covariance of operator*(Affine3d, Pose3D) vs J C J^T with J the finite-difference Jacobian of the library's own
     pose map: kind 'pose-covariance-jacobian' (defect repaired in /repo 67bbb47; a recurrence is a new violation).
-(d) LeastSquares::computeEstimateCovariance vs variance * A (J^T J)^-1 A^T (exact rational arithmetic).
+(d) LeastSquares::computeEstimateCovariance vs variance * A (J^T J)^-1 A^T (exact rational arithmetic) — on fresh
+    solvers (`ls.cov`) and on ONE solver object reused for problem sequences (`lsh.*`: svd / chol / wls estimates,
+    covariance queries after each, J, Y, W, sizes, estimate size and preconditioner changed in between): the reported
+    covariance must be that of the CURRENT problem (the one the last estimate solved), whatever the object did before.
 """
 import math
 from fractions import Fraction
@@ -20,7 +23,7 @@ DRIVER = 'drv_c12'
 HARNESS = 'c12.cpp'
 SOURCES = ['src/transform/SmartRotation3D.cpp', 'src/geometry/Pose3D.cpp', 'src/geometry/Pose2D.cpp',
            'src/geometry/Position3D.cpp', 'src/geometry/Ellipse.cpp', 'src/regression/leastsquares/LeastSquares.cpp']
-PROOF_MODULES = ['RomeaProofs.Properties.C12', 'RomeaProofs.Bridge.C12', 'RomeaProofs.Bridge.C12Cor']
+PROOF_MODULES = ['RomeaProofs.Properties.C12', 'RomeaProofs.Properties.C12Solver', 'RomeaProofs.Bridge.C12', 'RomeaProofs.Bridge.C12Cor']
 TRUSTED = ['tools/cxx2lean.py translates SmartRotation3D\'s default constructor, three-angle constructor and init (R_ and the three dRdAngle '
            'matrices) from the working tree into RomeaModel/Generated/SrcC12.lean on every run; RomeaProofs/Bridge/C12*.lean prove the four '
            'matrices equal to the model\'s smartInit entry by entry for every scalar type (Eigen Identity()/Zero() read as literal coefficients, '
@@ -28,13 +31,17 @@ TRUSTED = ['tools/cxx2lean.py translates SmartRotation3D\'s default constructor,
            'finite differences (central, Richardson, long double) of the implementation\'s own maps are computed by '
            'harness/c12.cpp and judged by tools/props/c12.py with explicit tolerances',
            'Eigen::Affine3d::rotation() and the inverse of J^T J (LDLT / JacobiSVD) are model parameters with contracts; '
-           'the driver uses the identity resp. a Gauss-Jordan inverse and the tie compares within 1e-9 relative']
+           'the driver uses the identity resp. a Gauss-Jordan inverse and the tie compares within 1e-9 relative',
+           'solver reuse (`lsh.*`): the C07 state machine (RomeaModel/LeastSquares.lean) with the Lean Float LDL^T / Jacobi stand-ins of '
+           'RomeaModel/LeastSquaresOracles.lean is run op by op against ONE LeastSquares<double> object per case; covariances are compared '
+           'within the error of an explicitly formed inverse (eps * cond), the probe judges them against exact rational arithmetic']
 ASSUMPTIONS = ['theorems are over exact reals; libm functions are the mathematical functions',
                'that the model Jacobian of operator*(Affine3d, Pose3D) is the Jacobian of the pose map is proved in Lean '
                'entrywise away from the wrap points of between0And2Pi (see RomeaProofs/Properties/C12.lean) and, on every '
                'run, compared with finite differences of the C++ pose map']
 EXPLANATION = ('Lean characterisation theorems (reported = true derivative + spurious term, with HasDerivAt for the true '
-               'derivatives; dRTdAngles columns; PSD of J C J^T for any J; solver covariance formula) on the model + '
+               'derivatives; dRTdAngles columns; PSD of J C J^T for any J; solver covariance formula, for a fresh solver and after '
+               'EVERY history of a reused one) on the model + '
                'differential correspondence + finite-difference probe of the implementation')
 
 TWO_PI = 2 * math.pi
@@ -272,6 +279,8 @@ def gen_cases(rng, tier):
         kind = 'chol' if rng.chance(0.6) else 'svd'
         cases.append({'name': 'lscov-%d' % i, 'lines': ['ls.cov %s %d %d %s' % (kind, ne, m, toks(flat(jm) + y + a + b + [var]))],
                       'meta': {}})
+    # --- (d) on a reused solver object: problem sequences (drawn last: the families above keep their random streams)
+    cases += gen_history_cases(rng, tier)
     return cases
 
 
@@ -306,6 +315,8 @@ def _ang_close(a, b, tol):
 
 def compare(case, li, op, impl, model):
     name = op.split()[0]
+    if name.startswith('lsh.'):
+        return compare_history(case, li, impl, model)
     gi, gm = _split(impl), _split(model)
     if gi is None or gm is None or not gi[0] or not gm[0]:
         return False
@@ -347,6 +358,8 @@ AXES = 'XYZ'
 
 
 def oracle(case, out, stats):
+    if case['lines'] and case['lines'][0].startswith('lsh.'):
+        return oracle_history(case, out, stats)
     fails = []
     for line, o in zip(case['lines'], out):
         tk = line.split()
@@ -449,6 +462,396 @@ def oracle(case, out, stats):
             stats['ls_cov_checked'] = stats.get('ls_cov_checked', 0) + 1
             if maxdiff(cov, exp) > 1e-8 * s:
                 bad('ls-covariance', 'computeEstimateCovariance differs from variance * A (J^T J)^-1 A^T: relative error %.3g' % (maxdiff(cov, exp) / s))
+    return fails
+
+
+# ------------------------------------------------------------------ (d) on a REUSED solver object: `lsh.*` histories
+# One LeastSquares<double> per case, driven like an iterative caller drives it (ICP / Gauss-Newton loops keep one solver):
+# several problems one after the other, estimates through all three paths, covariance queries in between.  The shadow
+# below is what the op TEXT says about the object (sizes, specified rows / weights, preconditioner); the oracle needs
+# nothing else: the covariance reported after an estimate must be  variance * A (G)^-1 A^T  with G the normal matrix of
+# rows 0..n-1 as they were when that estimate ran (row-scaled by the weights for the weighted estimate) — exact rationals.
+EPS64 = 2.0 ** -52
+HIST_COND_LIMIT = 1e6       # generated problems keep cond(G) below this at every estimate
+
+
+class LsShadow:
+    def __init__(self, lite=False):
+        self.lite = lite        # generator's copy: sizes and values only, no exact inverse
+        self.alive = False
+        self.est = self.n = self.cap = self.jcols = 0
+        self.rows = []          # per buffer row [list of J entries (None = unspecified), y (None = unspecified)]
+        self.W = []
+        self.a, self.b = [], []
+        self.inv = None         # None: nothing known | 'zero' | dict(Ginv=Fractions or None, cond=float, path=str)
+        self.dirty = False      # rows / weights / sizes changed since the estimate `inv` belongs to
+        self.pre_changed = False
+
+    def _reset_pre(self):
+        self.a, self.b = [1.0] * self.est, [0.0] * self.est
+
+    def normal(self, weighted, exact=True):
+        """(G as floats, G as Fractions) of rows 0..n-1 of the current problem, or None when an entry is unspecified"""
+        e, n = self.est, self.n
+        if not self.alive or e == 0 or n > self.cap:
+            return None
+        R = []
+        for k in range(n):
+            r = self.rows[k]
+            if len(r[0]) < e or any(v is None for v in r[0][:e]):
+                return None
+            w = self.W[k] if weighted else None
+            R.append([v * w for v in r[0][:e]] if weighted else list(r[0][:e]))     # v * w: the double product the code forms
+        if any(math.isnan(v) or math.isinf(v) for r in R for v in r):
+            return None
+        if not exact:
+            return [[math.fsum(r[i] * r[j] for r in R) for j in range(e)] for i in range(e)], None
+        RF = [[Fraction(v) for v in r] for r in R]
+        GF = [[sum(r[i] * r[j] for r in RF) for j in range(e)] for i in range(e)]
+        return [[float(x) for x in r] for r in GF], GF
+
+    @staticmethod
+    def cond(G):
+        lo = jacobi_min_eig(G)
+        hi = -jacobi_min_eig([[-x for x in r] for r in G])
+        return hi / lo if lo > 0 else math.inf
+
+    def feed(self, line):
+        """advance by one op line; returns the analysis of a `lsh.cov` line (None otherwise / when not applicable)"""
+        tk = line.split()
+        op = tk[0]
+        try:
+            if op == 'lsh.new':
+                e = int(tk[1])
+                if not 1 <= e <= 8 or len(tk) > 3:
+                    return None
+                n = int(tk[2]) if len(tk) == 3 else 0
+                if not 0 <= n <= 64:
+                    return None
+                self.__init__(self.lite)
+                self.alive, self.est, self.n, self.cap, self.jcols = True, e, n, n, e
+                self.rows = [[[0.0] * e, 0.0] for _ in range(n)]
+                self.W = [1.0] * n
+                self._reset_pre()
+                self.inv = 'zero'
+                return None
+            if not self.alive:
+                return None
+            if op == 'lsh.est' and len(tk) == 2:
+                e = int(tk[1])
+                if not 1 <= e <= 8:
+                    return None
+                if self.cap > 0 and e != self.jcols:     # J_.resize(Y_.rows(), e): contents unspecified; Y_, W_ untouched
+                    self.rows = [[[None] * e, r[1]] for r in self.rows]
+                self.jcols = self.est = e
+                self._reset_pre()
+                self.inv, self.dirty, self.pre_changed = 'zero', False, False
+            elif op == 'lsh.size' and len(tk) == 2:
+                n = int(tk[1])
+                if not 0 <= n <= 64:
+                    return None
+                if n != self.n:
+                    self.dirty = True
+                self.n = n
+                if self.cap < n:
+                    self.cap, self.jcols = n, self.est
+                    self.rows = [[[None] * self.est, None] for _ in range(n)]
+                    self.W = [1.0] * n
+                    self.dirty = True
+            elif op == 'lsh.row':
+                i = int(tk[1])
+                vals = [tok_val(t) for t in tk[2:]]
+                if i >= self.cap or len(vals) != self.est + 1:
+                    return None
+                self.rows[i] = [list(vals[:self.est]), vals[self.est]]
+                self.dirty = True
+            elif op == 'lsh.w' and len(tk) == 3:
+                i = int(tk[1])
+                if i >= self.cap:
+                    return None
+                self.W[i] = tok_val(tk[2])
+                self.dirty = True
+            elif op == 'lsh.pre':
+                vals = [tok_val(t) for t in tk[1:]]
+                if len(vals) != 2 * self.est:
+                    return None
+                self.a, self.b = vals[:self.est], vals[self.est:]
+                self.pre_changed = True
+            elif op in ('lsh.svd', 'lsh.chol', 'lsh.wls') and len(tk) == 1:
+                weighted = op == 'lsh.wls'
+                g = None if self.lite else self.normal(weighted)
+                if self.lite:
+                    self.inv = {'Ginv': None}
+                elif g is None:
+                    self.inv = None
+                else:
+                    self.inv = {'Ginv': frac_inverse(g[1]), 'cond': self.cond(g[0]), 'path': op[4:]}
+                if weighted and self.n <= self.cap:     # weightJAndY_: rows 0..n-1 stay multiplied by their weights
+                    for k in range(self.n):
+                        r, w = self.rows[k], self.W[k]
+                        r[0] = [(v * w if (c < self.est and v is not None) else v) for c, v in enumerate(r[0])]
+                        r[1] = r[1] * w if r[1] is not None else None
+                self.dirty, self.pre_changed = False, False
+            elif op == 'lsh.cov' and len(tk) == 2:
+                var = tok_val(tk[1])
+                e = self.est
+                info = {'e': e, 'var': var, 'a': list(self.a), 'dirty': self.dirty, 'pre_changed': self.pre_changed}
+                if self.inv == 'zero':
+                    info['zero'] = True
+                elif isinstance(self.inv, dict) and self.inv['Ginv'] is not None and len(self.inv['Ginv']) == e:
+                    gi = self.inv['Ginv']
+                    fa, fv = [Fraction(x) for x in self.a], Fraction(var)
+                    info['expected'] = [[float(fv * fa[i] * gi[i][j] * fa[j]) for j in range(e)] for i in range(e)]
+                    info['cond'] = self.inv['cond']
+                    info['path'] = self.inv['path']
+                    gmax = max(abs(float(x)) for r in gi for x in r)
+                    # error model of a covariance formed through the explicit inverse of G: entry (i,j) carries the
+                    # error of the inverse (relative to its largest entry, ~ eps * cond) scaled by |a_i a_j var|
+                    rel = 1e-9 + 256.0 * EPS64 * self.inv['cond']
+                    s = max(max(abs(x) for r in info['expected'] for x in r), 1e-300)
+                    info['tol'] = [[max(1e-8 * s, rel * abs(self.a[i] * self.a[j] * var) * gmax) for j in range(e)] for i in range(e)]
+                return info
+        except (ValueError, IndexError, TypeError, OverflowError):
+            return None
+        return None
+
+
+_HIST_CACHE = {}
+
+
+def analyse_history(case):
+    key = (case.get('name'), len(case['lines']), hash(tuple(case['lines'])))
+    if key not in _HIST_CACHE:
+        if len(_HIST_CACHE) > 20000:
+            _HIST_CACHE.clear()
+        sh = LsShadow()
+        _HIST_CACHE[key] = [sh.feed(l) for l in case['lines']]
+    return _HIST_CACHE[key]
+
+
+def _pvals(line):
+    tk = line.split()
+    if not tk or tk[0] != 'P':
+        return None
+    try:
+        return [tok_val(t) for t in tk[1:]]
+    except (ValueError, IndexError):
+        return None
+
+
+def compare_history(case, li, impl, model):
+    if impl == model:
+        return True
+    pi, pm = _pvals(impl), _pvals(model)
+    if pi is None or pm is None or len(pi) != len(pm) or not pi:
+        return False
+    an = analyse_history(case)
+    info = an[li] if li < len(an) else None
+    if any(math.isnan(x) or math.isnan(y) for x, y in zip(pi, pm)):
+        return False
+    if info is not None and 'tol' in info and len(pi) == info['e'] ** 2:
+        tol = flat(info['tol'])
+        return all(abs(x - y) <= 2.0 * t for x, y, t in zip(pi, pm, tol))
+    if info is not None and info.get('zero'):
+        return all(x == y for x, y in zip(pi, pm))
+    s = max(max(abs(v) for v in pi), max(abs(v) for v in pm))
+    return _close(pi, pm, 1e-9 * s + 1e-300)
+
+
+HIST_MALFORMED = ['lsh.size 3', 'lsh.cov d0', 'lsh.new 0', 'lsh.new 9', 'lsh.new 2 65', 'lsh.new 2', 'lsh.row 0 d0 d0 d0', 'lsh.size 2',
+                  'lsh.row 2 d0 d0 d0', 'lsh.row 0 d0 d0', 'lsh.row 0 d0 d0 d0 d0', 'lsh.row 0 s0 d0 d0', 'lsh.w 5 d0', 'lsh.pre d0',
+                  'lsh.pre d0 d0 d0', 'lsh.est 0', 'lsh.est 9', 'lsh.size 65', 'lsh.frob', 'lsh.cov', 'lsh.cov x', 'lsh.chol 1',
+                  'lsh.row 1 d0 d0 d0', 'lsh.size 3']
+HIST_MALFORMED_OK = {5: 'ok', 7: 'grew 1', 22: 'ok', 23: 'grew 1'}      # every other line: bad-op
+
+
+def _well_conditioned(rng, n, e):
+    """n x e design matrix with cond(J^T J) < 1e3 before the column scales"""
+    while True:
+        jm = [[rng.gauss() for _ in range(e)] for _ in range(n)]
+        g = matmul(transpose(jm), jm)
+        lo = jacobi_min_eig(g)
+        hi = -jacobi_min_eig([[-x for x in r] for r in g])
+        if lo > 0 and hi / lo < 1e3:
+            return jm
+
+
+def _history_case(rng, idx):
+    sh = LsShadow(lite=True)
+    lines = []
+    meta = {'history': True, 'problems': 0}
+
+    def emit(l):
+        lines.append(l)
+        sh.feed(l)
+
+    def write_rows(jm, ys, idx_rows):
+        for i in idx_rows:
+            emit('lsh.row %d %s' % (i, toks(list(jm[i]) + [ys[i]])))
+
+    def fresh_problem(n, e):
+        jm = _well_conditioned(rng, n, e)
+        scale = rng.loguniform(0.05, 20.0)          # problems of one history differ grossly in scale: so do their covariances
+        sc = [scale * rng.loguniform(0.3, 3.0) for _ in range(e)]
+        jm = [[jm[r][c] * sc[c] for c in range(e)] for r in range(n)]
+        return jm, [rng.gauss() * rng.choice([1.0, 1.0, 100.0]) for _ in range(n)]
+
+    def pre_line(e):
+        a = [rng.choice([-1, 1]) * rng.loguniform(1e-2, 1e2) if rng.chance(0.8) else 1.0 for _ in range(e)]
+        b = [rng.uniform(-10, 10) if rng.chance(0.7) else 0.0 for _ in range(e)]
+        return 'lsh.pre ' + toks(a + b)
+
+    def usable(path):
+        g = sh.normal(path == 'wls', exact=False)
+        return g is not None and sh.n >= sh.est and LsShadow.cond(g[0]) < HIST_COND_LIMIT
+
+    e = rng.choice([1, 2, 2, 3, 3, 4, 5])
+    if rng.chance(0.3):
+        emit('lsh.new %d %d' % (e, rng.int(0, 12)))
+    else:
+        emit('lsh.new %d' % e)
+    if rng.chance(0.05):
+        emit('lsh.cov ' + D(1.0))                   # nothing estimated yet: zero matrix (correspondence only)
+    if rng.chance(0.6):
+        emit(pre_line(e))
+    nprob = rng.int(2, 5)
+    for p in range(nprob):
+        mode = 'load' if p == 0 else rng.choice(['newJ', 'newJ', 'newJ', 'resize', 'resize', 'resize', 'partial', 'partial', 'onlyY',
+                                                  'weights', 'est', 'pre'])
+        forced = None
+        if mode == 'est':
+            e = rng.choice([e, e, max(1, e - 1), min(6, e + 1), rng.int(1, 5)])
+            emit('lsh.est %d' % e)
+            if rng.chance(0.2):
+                emit('lsh.cov ' + D(rng.loguniform(1e-2, 1e2)))      # zero right after setEstimateSize (correspondence only)
+            if rng.chance(0.5):
+                emit(pre_line(e))
+        if mode in ('load', 'resize', 'est'):
+            n = rng.choice([e, e + 1, rng.int(e, e + 6), rng.int(e, e + 14)])
+            emit('lsh.size %d' % n)
+            jm, ys = fresh_problem(n, e)
+            order = list(range(n))
+            if rng.chance(0.2):
+                rng.shuffle(order)
+            write_rows(jm, ys, order)
+        elif mode == 'newJ':
+            jm, ys = fresh_problem(sh.n, e)
+            write_rows(jm, ys, range(sh.n))
+        elif mode == 'partial':
+            # only some rows of the design matrix change (at least one); possibly on a smaller problem
+            if sh.n > e and rng.chance(0.4):
+                emit('lsh.size %d' % rng.int(e, sh.n))
+            jm, ys = fresh_problem(sh.n, e)
+            sel = [i for i in range(sh.n) if rng.chance(0.5)] or [rng.int(0, sh.n - 1)]
+            write_rows(jm, ys, sel)
+        elif mode == 'onlyY':
+            # the design matrix stays, only the observations change: the covariance must not move
+            for i in range(sh.n):
+                r = sh.rows[i]
+                if all(v is not None for v in r[0][:e]):
+                    emit('lsh.row %d %s' % (i, toks(list(r[0][:e]) + [rng.gauss() * 10.0])))
+        elif mode == 'weights':
+            for i in range(sh.n):
+                if rng.chance(0.7):
+                    emit('lsh.w %d %s' % (i, D(rng.uniform(0.5, 2.0))))
+            forced = 'wls'
+        elif mode == 'pre':
+            emit(pre_line(e))
+            if rng.chance(0.5) and isinstance(sh.inv, dict) and not sh.dirty:
+                emit('lsh.cov ' + D(rng.loguniform(1e-4, 1e2)))      # same estimate, newly configured preconditioner
+        if mode != 'weights' and rng.chance(0.25):
+            for i in range(sh.n):
+                if rng.chance(0.5):
+                    emit('lsh.w %d %s' % (i, D(rng.uniform(0.5, 2.0))))
+        if rng.chance(0.15):
+            emit(pre_line(e))
+        paths = rng.choice([['chol'], ['chol'], ['svd'], ['wls'], ['wls'], ['chol', 'svd'], ['svd', 'chol'], ['chol', 'wls'], ['svd', 'wls'],
+                            ['wls', 'chol']])
+        if forced:
+            paths = [forced] + (paths[1:] if len(paths) > 1 else [])
+        for path in paths:
+            if not usable(path):
+                # (partial rewrites / repeated in-place weighting can ruin the conditioning): state a fresh problem
+                n = max(sh.n, e)
+                if n != sh.n or n > sh.cap:
+                    emit('lsh.size %d' % n)
+                jm, ys = fresh_problem(n, e)
+                write_rows(jm, ys, range(n))
+                for i in range(n):
+                    if sh.W[i] != 1.0:
+                        emit('lsh.w %d %s' % (i, D(1.0)))
+            emit('lsh.' + path)
+            if rng.chance(0.85):
+                emit('lsh.cov ' + D(rng.loguniform(1e-4, 1e2)))
+                if rng.chance(0.2):
+                    emit('lsh.cov ' + D(rng.loguniform(1e-4, 1e2)))      # a second query with another variance
+        meta['problems'] += 1
+    return {'name': 'lshist-%d' % idx, 'lines': lines, 'meta': meta}
+
+
+def gen_history_cases(rng, tier):
+    cases = [{'name': 'lshist-malformed', 'lines': list(HIST_MALFORMED), 'meta': {'history': True, 'malformed': True}}]
+    for i in range(150 if tier == 'quick' else 3000):
+        cases.append(_history_case(rng, i))
+    return cases
+
+
+def oracle_history(case, out, stats):
+    fails = []
+
+    def bump(k, v=1):
+        stats[k] = stats.get(k, 0) + v
+    if case.get('meta', {}).get('malformed'):
+        for i, (line, o) in enumerate(zip(case['lines'], out)):
+            want = HIST_MALFORMED_OK.get(i, 'bad-op')
+            if o != want:
+                fails.append({'kind': 'malformed-accepted', 'detail': '%s -> %s (expected %s)' % (line, o, want), 'fields': {}})
+        bump('ls_hist_malformed_lines', len(out))
+        return fails
+    an = analyse_history(case)
+    for li, (line, o) in enumerate(zip(case['lines'], out)):
+        op = line.split()[0]
+        bump(op)
+
+        def bad(kind_, detail, **fields):
+            fails.append({'kind': kind_, 'detail': '%s line %d (%s) -> %s : %s' % (case.get('name'), li, line[:120], o[:200], detail),
+                          'fields': fields})
+        if o in ('abort', 'hang', 'exception', 'skipped', 'bad-op', 'bad-shape', 'shape-mismatch'):
+            bad('outcome-' + o, 'unexpected outcome on a solver history inside the preconditions')
+            break
+        if op != 'lsh.cov':
+            continue
+        info = an[li]
+        P = _pvals(o)
+        if info is None or P is None or len(P) != info['e'] ** 2:
+            bad('malformed', 'bad covariance output')
+            continue
+        if info.get('zero'):
+            bump('ls_hist_cov_before_any_estimate')       # not part of the property (the model / correspondence say: zero)
+            continue
+        if 'expected' not in info:
+            bump('ls_hist_cov_skipped_unspecified')
+            continue
+        if info['dirty']:
+            bump('ls_hist_cov_skipped_rows_changed_since_estimate')
+            continue
+        e = info['e']
+        exp, tol = info['expected'], info['tol']
+        bump('ls_hist_cov_checked')
+        bump('ls_hist_cov_after_' + info['path'])
+        if info['pre_changed']:
+            bump('ls_hist_cov_after_preconditioner_change')
+        if any(math.isnan(v) or math.isinf(v) for v in P):
+            bad('ls-covariance-history', 'covariance not finite on a full-rank problem (cond %.3g)' % info['cond'], path=info['path'])
+            continue
+        worst = max((abs(P[i * e + j] - exp[i][j]) / tol[i][j]) for i in range(e) for j in range(e))
+        stats['ls_hist_max_err_over_tol'] = max(stats.get('ls_hist_max_err_over_tol', 0.0), worst)
+        if worst > 1.0:
+            s = max(maxabs(exp), 1e-300)
+            bad('ls-covariance-history',
+                'computeEstimateCovariance on a REUSED solver differs from variance * A (J^T J)^-1 A^T of the current problem '
+                '(last estimate: %s, cond %.3g): relative error %.3g; reported %r, expected %r'
+                % (info['path'], info['cond'], maxdiff(mat(P, e, e), exp) / s, P, flat(exp)), path=info['path'], e=e)
     return fails
 
 
